@@ -3,11 +3,12 @@
    "Consequently ..." clause (distances, closeness and betweenness are functions of the node
    list, the kind and the multiset of stored edges, whatever history produced the graph),
    in Proofs/BrandesWF.v and Proofs/EdgeStoreOnly.v, on top of the end-to-end theorems of
-   C04 (Proofs/DijkstraWF.v), C06 (Proofs/ClosenessStateOk.v) and C05 (Proofs/BrandesWF.v). *)
+   C04 (Proofs/DijkstraWF.v), C06 (Proofs/ClosenessStateOk.v) and C05 (Proofs/BrandesWF.v);
+   for the shortest PATHS of single_source in Proofs/PathsStoreOnly.v. *)
 From Coq Require Import List Bool ZArith QArith Lia Permutation.
 From GV Require Import Base.Outcome Base.AMap Model.GState Model.Creation Model.Query Model.Cent Model.Brandes Model.Closeness Model.Dijkstra.
-From GV Require Import Spec.AGraph Spec.History Spec.ShortestPathDef Spec.EdgeStoreGraph Spec.EdgeStoreAdj.
-From GV Require Import Proofs.WFDefs Proofs.HistoryOk Proofs.AdjOk Proofs.ClosenessStateOk Proofs.BrandesWF Proofs.EdgeStoreOnly Proofs.BrandesWFExamples.
+From GV Require Import Spec.AGraph Spec.History Spec.ShortestPathDef Spec.ShortestPathRel Spec.EdgeStoreGraph Spec.EdgeStoreAdj.
+From GV Require Import Proofs.WFDefs Proofs.HistoryOk Proofs.AdjOk Proofs.ClosenessStateOk Proofs.BrandesWF Proofs.EdgeStoreOnly Proofs.BrandesWFExamples Proofs.PathsStoreOnly Proofs.PathsStoreOnlyExamples.
 Import ListNotations.
 
 Section C03.
@@ -116,6 +117,107 @@ Section C03.
                  option_map sp_distance (lookup teqb y m1) = option_map sp_distance (lookup teqb y m2)).
   Proof. exact (distances_arcs_only teqb tltb teqb_spec tltb_total). Qed.
 
+  (* ---------------------------------------------------------------- the PATHS single_source reports
+     (with_paths = true).  first_only = false and strictly positive arcs (the premise of C04's
+     all-paths clause; it is necessary: C03_paths_zero_weight_depend_on_history below): for two
+     coherent states with the same node list and the same edge-store arcs both calls return, the
+     maps have the same keys and distances (no target) / the same target entry, and for every
+     name reported by both the two path lists are duplicate free and contain the same paths —
+     they are permutations of each other (the ORDER may depend on the history:
+     C03_paths_edge_store_only_nonvacuous).  Proved from the exact characterisation of the
+     reported list, C04_reachable_single_source_paths_exact: the name forms of the shortest
+     paths of the edge-store graph, each once. *)
+  Theorem C03_paths_depend_on_arcs_only : forall (g1 g2 : gstate) (weighted : bool)
+      (source : T) (target : option T) (cutoff : option Q) (si : nat),
+    WF g1 -> WF g2 -> small_adj g1 -> small_adj g2 ->
+    (weighted = true -> weights_nonneg g1) -> (weighted = true -> weights_nonneg g2) ->
+    a_positive (edge_arc teqb g1 weighted) ->
+    names g1 = names g2 ->
+    (forall i j c, edge_arc teqb g1 weighted i j c <-> edge_arc teqb g2 weighted i j c) ->
+    name_at g1 si = Some source -> (forall t, target = Some t -> In t (names g1)) ->
+    cutoff_exceeded cutoff 0 = false ->
+    exists m1 m2,
+      single_source teqb g1 weighted source target cutoff false true = Ok m1 /\
+      single_source teqb g2 weighted source target cutoff false true = Ok m2 /\
+      (forall y, target = None \/ target = Some y ->
+                 option_map sp_distance (lookup teqb y m1) = option_map sp_distance (lookup teqb y m2)) /\
+      (forall y i1 i2, lookup teqb y m1 = Some i1 -> lookup teqb y m2 = Some i2 ->
+         sp_distance i1 = sp_distance i2 /\
+         NoDup (sp_paths i1) /\ NoDup (sp_paths i2) /\
+         (forall p, In p (sp_paths i1) <-> In p (sp_paths i2)) /\
+         Permutation (sp_paths i1) (sp_paths i2)).
+  Proof. exact (paths_arcs_only teqb tltb teqb_spec tltb_total). Qed.
+
+  (* ... hence for two graphs reached by ANY two histories under possibly different GraphSpecs
+     of the same kind, with the same node list and get_all_edges equal up to order (weighted
+     mode: every stored weight a positive real) *)
+  Theorem C03_paths_depend_on_edge_store_only : forall (s1 s2 : specs) (g1 g2 : gstate) (weighted : bool)
+      (source : T) (target : option T) (cutoff : option Q) (si : nat),
+    reachable teqb tltb s1 g1 -> reachable teqb tltb s2 g2 -> directed s1 = directed s2 ->
+    names g1 = names g2 -> Permutation (get_all_edges g1) (get_all_edges g2) ->
+    small_adj g1 -> small_adj g2 ->
+    (weighted = true -> weights_real_positive g1) ->
+    name_at g1 si = Some source -> (forall t, target = Some t -> In t (names g1)) ->
+    cutoff_exceeded cutoff 0 = false ->
+    exists m1 m2,
+      single_source teqb g1 weighted source target cutoff false true = Ok m1 /\
+      single_source teqb g2 weighted source target cutoff false true = Ok m2 /\
+      (forall y, target = None \/ target = Some y ->
+                 option_map sp_distance (lookup teqb y m1) = option_map sp_distance (lookup teqb y m2)) /\
+      (forall y i1 i2, lookup teqb y m1 = Some i1 -> lookup teqb y m2 = Some i2 ->
+         sp_distance i1 = sp_distance i2 /\
+         NoDup (sp_paths i1) /\ NoDup (sp_paths i2) /\
+         (forall p, In p (sp_paths i1) <-> In p (sp_paths i2)) /\
+         Permutation (sp_paths i1) (sp_paths i2)).
+  Proof. exact (paths_edge_store_only teqb tltb teqb_spec tltb_asym tltb_total). Qed.
+
+  (* first_only = true (non-negative weights suffice): each graph reports exactly ONE path per
+     reported node, and both are name forms of shortest paths of the common edge-store graph
+     (stated over g1's names and arcs).  WHICH shortest path is kept depends on the order of the
+     adjacency rows, hence on the history — no equality is claimed, and none holds
+     (C03_paths_edge_store_only_nonvacuous). *)
+  Theorem C03_first_path_depends_on_arcs_only : forall (g1 g2 : gstate) (weighted : bool)
+      (source : T) (target : option T) (cutoff : option Q) (si : nat),
+    WF g1 -> WF g2 -> small_adj g1 -> small_adj g2 ->
+    (weighted = true -> weights_nonneg g1) -> (weighted = true -> weights_nonneg g2) ->
+    names g1 = names g2 ->
+    (forall i j c, edge_arc teqb g1 weighted i j c <-> edge_arc teqb g2 weighted i j c) ->
+    name_at g1 si = Some source -> (forall t, target = Some t -> In t (names g1)) ->
+    cutoff_exceeded cutoff 0 = false ->
+    exists m1 m2,
+      single_source teqb g1 weighted source target cutoff true true = Ok m1 /\
+      single_source teqb g2 weighted source target cutoff true true = Ok m2 /\
+      (forall y, target = None \/ target = Some y ->
+                 option_map sp_distance (lookup teqb y m1) = option_map sp_distance (lookup teqb y m2)) /\
+      (forall y i1 i2, lookup teqb y m1 = Some i1 -> lookup teqb y m2 = Some i2 ->
+         sp_distance i1 = sp_distance i2 /\
+         exists j p1 p2 q1 q2,
+           name_at g1 j = Some y /\ sp_paths i1 = [p1] /\ sp_paths i2 = [p2] /\
+           names_of g1 q1 p1 /\ a_SP (edge_arc teqb g1 weighted) (number_of_nodes g1) si j q1 /\
+           names_of g1 q2 p2 /\ a_SP (edge_arc teqb g1 weighted) (number_of_nodes g1) si j q2).
+  Proof. exact (first_path_arcs_only teqb tltb teqb_spec tltb_total). Qed.
+
+  Theorem C03_first_path_depends_on_edge_store_only : forall (s1 s2 : specs) (g1 g2 : gstate) (weighted : bool)
+      (source : T) (target : option T) (cutoff : option Q) (si : nat),
+    reachable teqb tltb s1 g1 -> reachable teqb tltb s2 g2 -> directed s1 = directed s2 ->
+    names g1 = names g2 -> Permutation (get_all_edges g1) (get_all_edges g2) ->
+    small_adj g1 -> small_adj g2 ->
+    (weighted = true -> weights_nonneg g1 /\ weights_real g1) ->
+    name_at g1 si = Some source -> (forall t, target = Some t -> In t (names g1)) ->
+    cutoff_exceeded cutoff 0 = false ->
+    exists m1 m2,
+      single_source teqb g1 weighted source target cutoff true true = Ok m1 /\
+      single_source teqb g2 weighted source target cutoff true true = Ok m2 /\
+      (forall y, target = None \/ target = Some y ->
+                 option_map sp_distance (lookup teqb y m1) = option_map sp_distance (lookup teqb y m2)) /\
+      (forall y i1 i2, lookup teqb y m1 = Some i1 -> lookup teqb y m2 = Some i2 ->
+         sp_distance i1 = sp_distance i2 /\
+         exists j p1 p2 q1 q2,
+           name_at g1 j = Some y /\ sp_paths i1 = [p1] /\ sp_paths i2 = [p2] /\
+           names_of g1 q1 p1 /\ a_SP (edge_arc teqb g1 weighted) (number_of_nodes g1) si j q1 /\
+           names_of g1 q2 p2 /\ a_SP (edge_arc teqb g1 weighted) (number_of_nodes g1) si j q2).
+  Proof. exact (first_path_edge_store_only teqb tltb teqb_spec tltb_asym tltb_total). Qed.
+
   (* C06 (quotes C06_closeness_reachable): same keys in the same order, equal values *)
   Theorem C03_closeness_depends_on_edge_store_only : forall (s1 s2 : specs) (g1 g2 : gstate) lw1 lw2 weighted wf,
     reachable teqb tltb s1 g1 -> reachable teqb tltb s2 g2 -> directed s1 = directed s2 ->
@@ -161,3 +263,36 @@ Theorem C03_edge_store_only_nonvacuous :
   (exists m, single_source Z.eqb bw_g' true 1%Z None None false true = Ok m /\
              option_map sp_distance (lookup Z.eqb 3%Z m) = Some 2%Z).
 Proof. exact edge_store_only_nonvacuous. Qed.
+
+(* non-vacuity of the path theorems: [pa_g] (directed, KeepLast, nodes created on demand; the
+   history REPLACES the weight 5 of 1->2 by 1) and [pa_g'] (directed, KeepFirst, nodes must exist,
+   another insertion order; two later duplicates are IGNORED) have the same five nodes and the
+   same edge multiset (the diamond 1->2->4, 1->3->4 and 4->5) in a different order, different
+   successors_vec.  Nodes 4 and 5 have two shortest paths each: both graphs report both, each
+   once, in a DIFFERENT order; with first_only they report DIFFERENT single paths *)
+Theorem C03_paths_edge_store_only_nonvacuous :
+  reachable Z.eqb Z.ltb pa_specs pa_g /\ reachable Z.eqb Z.ltb pa_specs' pa_g' /\
+  pa_specs <> pa_specs' /\ directed pa_specs = directed pa_specs' /\
+  names pa_g = [1; 2; 3; 4; 5]%Z /\ names pa_g = names pa_g' /\ weights_real_positive pa_g /\
+  Permutation (get_all_edges pa_g) (get_all_edges pa_g') /\
+  get_all_edges pa_g <> get_all_edges pa_g' /\ successors_vec pa_g <> successors_vec pa_g' /\
+  small_adj pa_g /\ small_adj pa_g' /\ name_at pa_g 0 = Some 1%Z /\
+  paths_to 4 (single_source Z.eqb pa_g true 1%Z None None false true) = Some [[1; 3; 4]; [1; 2; 4]]%Z /\
+  paths_to 4 (single_source Z.eqb pa_g' true 1%Z None None false true) = Some [[1; 2; 4]; [1; 3; 4]]%Z /\
+  paths_to 5 (single_source Z.eqb pa_g true 1%Z None None false true) = Some [[1; 3; 4; 5]; [1; 2; 4; 5]]%Z /\
+  paths_to 5 (single_source Z.eqb pa_g' true 1%Z None None false true) = Some [[1; 2; 4; 5]; [1; 3; 4; 5]]%Z /\
+  paths_to 4 (single_source Z.eqb pa_g true 1%Z None None true true) = Some [[1; 3; 4]]%Z /\
+  paths_to 4 (single_source Z.eqb pa_g' true 1%Z None None true true) = Some [[1; 2; 4]]%Z.
+Proof. exact paths_edge_store_only_nonvacuous. Qed.
+
+(* the positivity premise of the all-paths theorems is necessary: two histories under the SAME
+   GraphSpecs, same nodes, edges 1->2 (1), 1->3 (1), 2->3 (0) inserted in two orders; the shortest
+   paths from 1 to 3 are 1-3 and 1-2-3; one graph reports only the first, the other both *)
+Theorem C03_paths_zero_weight_depend_on_history :
+  reachable Z.eqb Z.ltb pa_specs zw_g1 /\ reachable Z.eqb Z.ltb pa_specs zw_g2 /\
+  names zw_g1 = names zw_g2 /\ Permutation (get_all_edges zw_g1) (get_all_edges zw_g2) /\
+  small_adj zw_g1 /\ small_adj zw_g2 /\ weights_nonneg zw_g1 /\ weights_real zw_g1 /\
+  name_at zw_g1 0 = Some 1%Z /\
+  paths_to 3 (single_source Z.eqb zw_g1 true 1%Z None None false true) = Some [[1; 3]]%Z /\
+  paths_to 3 (single_source Z.eqb zw_g2 true 1%Z None None false true) = Some [[1; 3]; [1; 2; 3]]%Z.
+Proof. exact paths_zero_weight_depend_on_history. Qed.
